@@ -25,6 +25,8 @@ pub struct Spec {
     pub polls: usize,
     /// zero-copy: consumers keep the handles they receive until they finished polling
     pub hold: bool,
+    /// C02: an extra thread that asks `pending_items_count()` this many times while the others run ("never more than BUFFER_SIZE events are pending")
+    pub len_queries: usize,
 }
 
 fn make<C>(spec: Spec) -> Instance
@@ -63,6 +65,13 @@ where C: FullDuplexUniChannel<ItemType = u32> + Send + Sync + 'static,
             *slot.lock().unwrap() = Some(stream);
         }));
     }
+    if spec.len_queries > 0 {
+        let chan = chan.clone();
+        let n = spec.len_queries;
+        bodies.push(Box::new(move || {
+            for _ in 0..n { mcx::rec("l.call", 0, 0); let len = chan.pending_items_count(); mcx::rec("l.ret", len as i64, 0) }
+        }));
+    }
     let sp = spec.clone();
     Instance { bodies, check: Box::new(move |out| {
         // sequential drain of every stream after the run (explorer thread, hooks pass through)
@@ -83,6 +92,9 @@ where C: FullDuplexUniChannel<ItemType = u32> + Send + Sync + 'static,
         }
         let mut v = judge_exactly_once(out, &drained, pending_reported, sp.b);
         if sp.prop == "C02" { v.extend(judge_fifo(out, &drained, sp.b, sp.kind)) }
+        for r in out.log.iter().filter(|r| r.op == "l.ret") {
+            if r.a < 0 || r.a > sp.b as i64 { v.push(("length-out-of-range".to_string(), format!("pending_items_count() answered {} on a channel of {} slots: {}", r.a, sp.b, mcx::fmt_log(&out.log)))) }
+        }
         v
     }) }
 }
@@ -332,7 +344,7 @@ pub fn scenarios(prop: &'static str, tier: Tier) -> Vec<ScenarioDef> {
                         if kind == UniKind::MC && ep_name != "send" && p * sends > b { continue }
                         let family = format!("uni-{}/{}/B{b}{}", kind.name(), ep_name, if hold { "-hold" } else { "" });
                         let rung = format!("P{p}-E{sends}-S{streams}-N{polls}");
-                        let spec = Spec { prop, kind, eps: eps.clone(), b, m, streams, producers: p, sends, polls, hold };
+                        let spec = Spec { prop, kind, eps: eps.clone(), b, m, streams, producers: p, sends, polls, hold, len_queries: 0 };
                         let threads = p + streams;
                         let bound = match tier { Tier::Quick => if threads <= 2 { 2 } else { 1 }, Tier::Thorough => if threads <= 2 { 3 } else { 2 } };
                         defs.push(ScenarioDef { prop, family, rung, rung_idx, max_bound: bound,
@@ -344,9 +356,24 @@ pub fn scenarios(prop: &'static str, tier: Tier) -> Vec<ScenarioDef> {
         }
     }
     if prop == "C02" {
+        // length queries racing one producer and one consumer (the count is assembled from two counters)
+        for kind in UniKind::ALL {
+            for b in [2usize, 4] {
+                if b == 4 && tier == Tier::Quick { continue }
+                let mut rung_idx = 0;
+                let rungs: &[(usize, usize, usize)] = if tier == Tier::Quick { &[(1, 2, 2), (2, 3, 2)] } else { &[(1, 2, 2), (2, 3, 2), (3, 4, 3)] };
+                for &(sends, polls, lens) in rungs {
+                    let spec = Spec { prop, kind, eps: vec![Ep::Send], b, m: 1, streams: 1, producers: 1, sends, polls, hold: false, len_queries: lens };
+                    let bound = match tier { Tier::Quick => 2, Tier::Thorough => 3 };
+                    defs.push(ScenarioDef { prop, family: format!("uni-{}/len/B{b}", kind.name()), rung: format!("E{sends}-N{polls}-L{lens}"), rung_idx, max_bound: bound,
+                        make: Arc::new(move || { let sp = spec.clone(); crate::dispatch_uni!(sp.kind, sp.b, sp.m, make(sp)) }) });
+                    rung_idx += 1;
+                }
+            }
+        }
         let scripts: Vec<(&str, Vec<&'static str>)> = vec![
-            ("T2-a", vec!["pp", "cc"]), ("T2-b", vec!["pcp", "cpc"]), ("T2-c", vec!["ppp", "lcl"]), ("T2-d", vec!["sc", "sc"]),
-            ("T3-a", vec!["pp", "pp", "cc"]), ("T3-b", vec!["pp", "cc", "cc"]), ("T3-c", vec!["pc", "pc", "pc"]), ("T3-d", vec!["ps", "cl", "cp"]),
+            ("T2-a", vec!["pp", "cc"]), ("T2-b", vec!["pcp", "cpc"]), ("T2-c", vec!["ppp", "lcl"]), ("T2-d", vec!["sc", "sc"]), ("T2-e", vec!["ll", "pcpc"]),
+            ("T3-a", vec!["pp", "pp", "cc"]), ("T3-b", vec!["pp", "cc", "cc"]), ("T3-c", vec!["pc", "pc", "pc"]), ("T3-d", vec!["ps", "cl", "cp"]), ("T3-e", vec!["ll", "pp", "cc"]),
         ];
         for ring in [Ring::AtomicMove, Ring::FullSyncMove, Ring::AtomicZeroCopy, Ring::FullSyncZeroCopy] {
             for n in [2usize, 4] {
